@@ -17,6 +17,7 @@ import GoaktVerif.Lemmas.C04.UBWf
 import GoaktVerif.Lemmas.C04.HeapMbox
 import GoaktVerif.Lemmas.C04.LockedInv
 import GoaktVerif.Lemmas.C04.RingMain
+import GoaktVerif.Lemmas.C04.RingTrace2
 
 namespace GoaktVerif.C04
 open GoaktVerif.Model.C04 GoaktVerif.Spec.C04
@@ -413,5 +414,23 @@ example : RingInv.RingWF 2 [[.enq 1 0, .len], [.enq 2 0], [.deq, .emp, .deq]] :=
   | 1, hp => simp at hp; subst hp; simp
   | 2, _ => exact absurd rfl hi
   | n + 3, hp => simp at hp
+
+open RingInv in
+/-- EXACTLY-ONCE and FIFO for the ring, every schedule: with `resv` the messages in the order of the
+successful CAS on `enqueuePos` (the reservation order), `enqueuePos` counts them, every reserved and
+unclaimed position still holds its message in its slot, and the values returned by `Dequeue` (in
+order, including one claimed but not yet returned) are exactly the FIRST `dequeuePos` messages of
+`resv` — nothing lost, nothing duplicated, nothing reordered; no assumption that messages differ. -/
+theorem ring_fifo_exactly_once (ct cap : Nat) (progs : List (List Op)) (wf : RingWF ct progs) (sched : List Nat) :
+    let c0 : Cf := initCfg Ring.algo (Ring.init cap) progs
+    let c := runSched c0 sched
+    let resv := resvTrace c0 sched
+    resv.length = c.sh.enqPos ∧
+    (∀ p, c.sh.deqPos ≤ p → p < c.sh.enqPos → c.sh.ctx (p % c.sh.size) = resv[p]?) ∧
+    (∀ (t : Thread Ring.PC), c.threads[ct]? = some t → deqdT t = resv.take c.sh.deqPos) := by
+  intro c0 c resv
+  have h := tr_run ct cap progs wf sched c0 [] Reach.init (tr_init ct cap progs)
+  simp only [List.nil_append] at h
+  exact ⟨h.len, h.ctx, h.deqd⟩
 
 end GoaktVerif.C04
